@@ -1,10 +1,7 @@
-mod ast2sexp;
-mod common;
-mod extract;
-mod model;
-mod sexp;
+mod props;
 
-use common::*;
+use vcore::common::*;
+use vcore::{model, report};
 
 fn irtest(args: &[String]) {
     let schema_path = std::path::PathBuf::from(&args[0]);
@@ -42,6 +39,7 @@ fn main() {
     let args: Vec<String> = std::env::args().skip(1).collect();
     match args.first().map(|s| s.as_str()) {
         Some("irtest") => irtest(&args[1..]),
+        Some("C13") => std::process::exit(props::c13::run(&report::parse_args(&args[1..]))),
         _ => {
             eprintln!("usage: vdrive <cmd> ..");
             std::process::exit(2)
